@@ -629,7 +629,46 @@ pub fn run_cat(c: &mut Ctx, count: usize) {
                         }
                         g
                     }
+                    2 => {
+                        // a wiring that LOOKS like an identity (no hyperedges, as many nodes as boundary
+                        // entries, sources == targets) but is not: legs that repeat a node, or pending
+                        // unifications between its nodes
+                        c.knob("cat:compose-with-identity-lookalike");
+                        let ty = f.ty().1;
+                        let k = ty.len();
+                        let mut legs: Vec<usize> = (0..k).collect();
+                        for i in 0..k {
+                            let same: Vec<usize> = (0..k).filter(|j| ty[*j] == ty[i]).collect();
+                            if c.rng.chance(1, 2) {
+                                legs[i] = *c.rng.pick(&same);
+                            }
+                        }
+                        let mut q = (vec![], vec![]);
+                        if k >= 2 && c.rng.chance(1, 2) {
+                            let i = c.rng.below(k);
+                            let same: Vec<usize> = (0..k).filter(|j| ty[*j] == ty[i]).collect();
+                            q.0.push(i);
+                            q.1.push(*c.rng.pick(&same));
+                        }
+                        RLf { sources: legs.clone(), targets: legs, nodes: ty, edges: vec![], adjacency: vec![], quotient: q }
+                    }
                     _ => { let p_ = c.rng.chance(1, 2); gen_lf_with_source(c, &f.ty().1, p_) },
+                };
+                // the same lookalike on the LEFT of a composition
+                let (f, g) = if c.rng.chance(1, 8) && !g.sources.is_empty() {
+                    c.knob("cat:compose-identity-lookalike-on-the-left");
+                    let ty = g.ty().0;
+                    let k = ty.len();
+                    let mut legs: Vec<usize> = (0..k).collect();
+                    for i in 0..k {
+                        let same: Vec<usize> = (0..k).filter(|j| ty[*j] == ty[i]).collect();
+                        if c.rng.chance(1, 2) {
+                            legs[i] = *c.rng.pick(&same);
+                        }
+                    }
+                    (RLf { sources: legs.clone(), targets: legs, nodes: ty, edges: vec![], adjacency: vec![], quotient: (vec![], vec![]) }, g)
+                } else {
+                    (f, g)
                 };
                 let (a, bb) = (f.clone(), g.clone());
                 c.emit("lax.compose", vec![f.enc(), g.enc()], move || op_compose(&a, &bb));
